@@ -216,6 +216,49 @@ def check_pda(acc, spec, L, depth, stack=('x', 'y'), only=None):
         GambaTools.pda_epsilon_closure_max_iterations = old
 
 
+def t_cyc(acc, maxlen, front, limit, upto=None):
+    """Thin family (wave 5): coprime push / pop epsilon cycles (mc.oracles.pda.cyc_family).  Every closure is infinite, so
+    the run is demanded under the property's own reading: when the library's acceptance test, at the same limit, accepts
+    a word of the language, the simulation must return an accepting run.  CPython order only."""
+    from gambatools.pda_algorithms import pda_simulate_word, pda_accepts_word
+    from gambatools.global_settings import GambaTools
+    old = GambaTools.pda_epsilon_closure_max_iterations
+    GambaTools.pda_epsilon_closure_max_iterations = limit
+    try:
+        for idx, spec in pda.cyc_family(maxlen, front):
+            R = pda.ref(spec)
+            P = pda.build(spec)
+            acc.states += 1
+            for w in spaces.words(R.Sigma, 1):
+                exp = pda.accepts(R, w)
+                rp = {'fn': 'mc.props.c15:t_cyc', 'mode': 'plain', 'params': {'maxlen': maxlen, 'front': front, 'limit': limit, 'upto': idx}}
+                inst = {'pda': pda.show(spec), 'word': w, 'limit': limit}
+                ok, lib_acc = core.lib_call(acc, 'pda_accepts_word', inst, pda_accepts_word, P, w, repro=rp)
+                ok2, run = core.lib_call(acc, 'pda_simulate_word', inst, pda_simulate_word, P, w, repro=rp)
+                acc.transitions += 2
+                if not (ok and ok2):
+                    continue
+                acc.evals += 1
+                acc.validated += 1
+                if run is None:
+                    if exp and lib_acc is True:
+                        acc.viol('pda_simulate_word', 'returns nothing for a word of the language that the acceptance test accepts at the same limit', inst, repro=rp)
+                    continue
+                if not exp:
+                    acc.viol('pda_simulate_word', 'returns a run for a rejected word', inst, repro=rp, observed=run)
+                    continue
+                acc.nontrivial += 1
+                msg = valid_pda_run(R, w, run)
+                if msg:
+                    acc.viol('pda_simulate_word', 'returned run is not an accepting computation of the automaton on the word', inst, repro=rp, observed={'reason': msg, 'run': run})
+                else:
+                    acc.mx('max_stack_height_in_a_returned_run', max(len(row[2]) for row in run))
+            if upto is not None and idx == upto:
+                break
+    finally:
+        GambaTools.pda_epsilon_closure_max_iterations = old
+
+
 def check_cfg(acc, g, L, only=None, siblings=True):
     from gambatools.cfg_algorithms import cfg_derive_word
     if siblings and only is None:
@@ -360,6 +403,9 @@ def plan(tier, seed):
     add('pda', ['multichar'], 2, 1, 1, 1, opt=['A', 'B', 'AB'])
     add('pda', [2, 1, 2, 2], 2, 1, 8, 2 if q else 1)
     add('cfg', [4 if q else 5], 4, 1, 32)
+    for front in (False, True):
+        tasks.append(('plain', 'mc.props.c15:t_cyc', {'maxlen': 5, 'front': front, 'limit': 1000}))
+    add('pda', [2, 1, 1, 2], 2, 0, 4, opt=['γ', 'Ω'])
     return {'tasks': tasks,
             'bounds': {'spaces': 'DFA(n<=2,k<=2), DFA(3,1) x accepted words <= 4, DFA(3,2){}; NFA(1,1), NFA(2,1) all, NFA(2,2,{}), NFA(3,1,<=4){}, eps-chains 4..5, 4-state and 3-state epsilon-heavy families{}, NFA(4,1,4) with q0=s0,|F|=1 (stride) x words <= 1..3; PDA(1,1,1,<=3), PDA(2,1,1,<=2), PDA(2,1,1,3){}, PDA(2,2,1,<=2){}, PDA(2,1,2,<=2), push family (3 states, two push moves with different symbols into one state, 26 244 automata, stride 1/2 in quick) x words <= 3 at closure limit {}; CNF(3) with <= {} rules x generated words 1..4 x leftmost/rightmost/any'.format(
                 ' stride 1/4' if q else '', '<=4' if q else 'all', ' stride 1/4' if q else '', ' stride 1/16' if q else ' stride 1/2', ' stride 1/8' if q else '', ' stride 1/4' if q else '', PDA_LIMIT, 4 if q else 5),
@@ -367,4 +413,4 @@ def plan(tier, seed):
             'exhaustive': True,
             'rule': 'every automaton x word (accepted: run validated against the transition relation; rejected: NFA/PDA must return None) under CPython order and every execution with <= d set-order deviations, loop-iteration budget as termination oracle; every CNF grammar x generated non-empty word x derivation type validated step by step; non-trivial = automaton with epsilon moves accepting a short word / PDA word inside the closure premise / word of length >= 3',
             'assumptions': ['PDA: a run must be produced only when every epsilon closure on the way has at most {} configurations (limit set to {} for this check); outside that premise a None or an exhausted budget is recorded, not reported'.format(PDA_LIMIT, PDA_LIMIT),
-                            'DFA runs are checked for accepted words only']}
+                            'DFA runs are checked for accepted words only', 'wave 5: coprime push/pop epsilon cycles (up to 5 + 5 states; accepting runs climb to 20 stack symbols with 12 states): a run is demanded when the library acceptance test accepts at the same limit (1000); stack symbols outside latin-1; all names equal but distinct str objects']}
